@@ -30,7 +30,7 @@ func init() {
 		runner.Register(p, runner.Scenario{Name: "connection", Options: opts, Body: func(c *runner.Ctx) { connBody(c) }})
 		runner.Register(p, runner.Scenario{Name: "connection-stall", Options: stall, Body: func(c *runner.Ctx) { connBody(c) }})
 		runner.Register(p, runner.Scenario{Name: "connection-preempt", Options: func(string) simrt.Options {
-			return simrt.Options{MaxSteps: 400000, RotateMaps: true, ParkPermille: 6, MapPausePermille: 200}
+			return simrt.Options{MaxSteps: 400000, RotateMaps: true, ParkPermille: 6, MapPausePermille: 200, SpawnPausePermille: 30}
 		}, Body: func(c *runner.Ctx) { connBody(c) }})
 	}
 }
